@@ -240,7 +240,7 @@ theorem modifyCore_prot {c : Ctx} {ver : Nat} {o o' : Obj} {attr current new : O
   · split at h
     · inv h
     · inv h
-      obtain ⟨md, hmd, hmod, mv, hmv, h⟩ := h
+      obtain ⟨md, hmd, hmod, hmis, mv, hmv, h⟩ := h
       have hmd' := hmd
       rw [show md = true by cases md <;> simp_all] at hmd'
       split at h
